@@ -48,8 +48,16 @@ class float_shim(_builtin_float, metaclass=_FloatShimMeta):
         return _builtin_float(x)
 
 
+_real_finfo = np.finfo
+
+
+def _finfo(t=_builtin_float):
+    return _real_finfo(_builtin_float if t is float_shim else t)
+
+
 def install_float_shim():
     import importlib
+    np.finfo = _finfo            # np.finfo(float) inside a shimmed module
     for name in ('elfi.methods.bo.gpy_regression', 'elfi.methods.mcmc', 'elfi.methods.posteriors',
                  'elfi.methods.bo.acquisition'):
         mod = importlib.import_module(name)
